@@ -1,6 +1,6 @@
 SPECIFICATION DSpec
 CONSTANTS Passes = {"A", "E", "U"}
-          Keys = {1, 2, 3}
+          Keys = {1, 2}
           MaxAccounts = 2
 INVARIANTS StoreRoundTrip DirBounded
 CONSTRAINT BlobBound
